@@ -20,17 +20,18 @@ package main
 
 import (
 	"bytes"
-	"sync/atomic"
 	"context"
 	"flag"
 	"fmt"
 	"io"
 	"net"
 	"sync"
+	"sync/atomic"
 	"time"
 
 	"github.com/enfein/mieru/v3/pkg/appctl/appctlpb"
 	"github.com/enfein/mieru/v3/pkg/protocol"
+	"github.com/enfein/mieru/v3/pkg/replay"
 	"google.golang.org/protobuf/proto"
 	"verifharness/refcodec"
 	"verifharness/rig"
@@ -65,9 +66,11 @@ type probe struct {
 	info             string // extra text for failure reports
 	shaped           bool   // plen/slen describe the (crafted) first segment the probe was cut from / extended
 	plen, slen       int
-	closeAfter       bool // TCP: the prober closes the connection right after writing
+	closeAfter       bool   // TCP: the prober closes the connection right after writing
+	credForLate      []byte // management probes written after a reload that follows the connect (manage.go)
+	hintForLate      string
 	lazy             func(p *probe) // fills data (and sid) at the moment of sending: key slot, timestamp and nonce are then current
-	expectSession    bool // a complete segment made with a registered credential: must be accepted (sanity of the crafting)
+	expectSession    bool           // a complete segment made with a registered credential: must be accepted (sanity of the crafting)
 }
 
 type env struct {
@@ -249,7 +252,9 @@ func (p probe) caseLine(transport string) string {
 	return line
 }
 
-func (e *env) sessionList() []*appctlpb.SessionInfo { return e.rg.Server.ExportSessionInfoList().GetItems() }
+func (e *env) sessionList() []*appctlpb.SessionInfo {
+	return e.rg.Server.ExportSessionInfoList().GetItems()
+}
 
 // judge writes the case, and reports oracle failures for one probe.
 func (e *env) judge(p probe, src string, o obs, sigPrefix string) {
@@ -314,7 +319,7 @@ func materialise(p *probe) {
 		p.lazy(p)
 		p.lazy = nil
 	}
-	if p.tag != "R" {
+	if p.tag != "R" && p.tag != "M" { // "M": checked against the list published last (manage.go)
 		if o, _ := headerOpens(p.data, time.Now()); o != p.opens {
 			panic("driver bug: a probe's 'opens' attribute is wrong: " + p.kind + " " + p.info)
 		}
@@ -416,6 +421,26 @@ func (e *env) udpBatch(ps []probe, wait time.Duration, sigPrefix string) {
 		if i%100 == 99 {
 			time.Sleep(500 * time.Millisecond) // spread the probes over the genuine client's echo rounds
 		}
+	}
+	// The server's UDP event loop is one goroutine that also cleans sessions (a close can hold it for a second per
+	// session): judge only after it has READ every datagram of the batch.
+	mine := map[string]bool{}
+	for _, a := range srcs {
+		mine[a.String()] = true
+	}
+	for waited := 0; waited < 180; waited++ {
+		sent, recvd := map[int]bool{}, 0
+		for _, ev := range e.rg.Net.Log.Snapshot()[pos:] {
+			if ev.Kind == "udp-send" && ev.Dst == serverAddr && mine[ev.Src] {
+				sent[ev.ID] = true
+			} else if ev.Kind == "udp-recv" && sent[ev.ID] {
+				recvd++
+			}
+		}
+		if recvd >= len(sent) {
+			break
+		}
+		time.Sleep(time.Second)
 	}
 	time.Sleep(wait)
 	evs := e.rg.Net.Log.Snapshot()
@@ -832,7 +857,9 @@ func runProbe(r *vh.Run, transport, label string, sp, cp *appctlpb.TrafficPatter
 	for i := 0; i < nforge; i++ {
 		plc := []int{0, 10, 1024}[i%3]
 		add(probe{kind: "wrong-password", field: "key", lazy: func(p *probe) { p.data = forgedHandshake(rng, "alice", "not-alices-password", "alice", transport, plc) }})
-		add(probe{kind: "unknown-user", field: "key", lazy: func(p *probe) { p.data = forgedHandshake(rng, "mallory", "mallory-password", "mallory", transport, plc) }})
+		add(probe{kind: "unknown-user", field: "key", lazy: func(p *probe) {
+			p.data = forgedHandshake(rng, "mallory", "mallory-password", "mallory", transport, plc)
+		}})
 		add(probe{kind: "real-hint-foreign-key", field: "key", lazy: func(p *probe) { p.data = forgedHandshake(rng, "mallory", "mallory-password", "bob", transport, plc) }})
 		add(probe{kind: "password-of-other-user", field: "key", lazy: func(p *probe) { p.data = forgedHandshake(rng, "alice", users["bob"], "alice", transport, plc) }})
 	}
@@ -942,6 +969,85 @@ func (e *env) acceptedFromIP(ipAddr string) int {
 
 // ---------------------------------------------------------------- replay mode
 
+// reloadUsers: the user table a management reload (the Reload RPC = Mux.SetServerUsers) installs. alice and bob keep
+// their passwords in every variant (their keys do not change, genuine clients keep working):
+// 1 unchanged, 2 another user added, 3 that user removed again, 4 the victim's quota changed (far from exhausted),
+// 5 unchanged, applied twice in a row.
+func reloadUsers(v int, victim string) map[string]*appctlpb.User {
+	m := map[string]*appctlpb.User{}
+	for n, p := range users {
+		m[n] = &appctlpb.User{Name: proto.String(n), Password: proto.String(p)}
+	}
+	switch v {
+	case 2:
+		m["carol"] = &appctlpb.User{Name: proto.String("carol"), Password: proto.String("carol-pw")}
+	case 4:
+		m[victim].Quotas = []*appctlpb.Quota{{Days: proto.Int32(1), Megabytes: proto.Int32(1000000)}}
+	}
+	return m
+}
+
+func (e *env) reload(v int, victim string) {
+	e.rg.Server.SetServerUsers(reloadUsers(v, victim))
+	if v == 5 {
+		e.rg.Server.SetServerUsers(reloadUsers(v, victim))
+	}
+	e.r.Count(fmt.Sprintf("reload-variant-%d", v))
+}
+
+// fixedNonceClients: nothing is replayed here. Several independent clients of one user whose traffic pattern fixes the
+// first n bytes of every nonce (NONCE_TYPE_FIXED with one customHexStrings entry of n = 0..12 bytes, applied to
+// every UDP packet) each open a fresh session and exchange a message: all must be served and the server's
+// new-session replay counters must not move - the record of recent traffic never reports never-seen traffic.
+func (e *env) fixedNonceClients(rng *vh.Rng) {
+	r := e.r
+	const hexPrefix = "474554202f20485454502f31" // "GET / HTTP/1"
+	lens := []int{0, 1, 4, 7, 8, 9, 12}
+	if r.Thorough() {
+		lens = []int{0, 1, 2, 3, 4, 5, 6, 7, 8, 9, 10, 11, 12}
+	}
+	for _, n := range lens {
+		var pat *appctlpb.TrafficPattern
+		if n > 0 {
+			pat = &appctlpb.TrafficPattern{Nonce: &appctlpb.NoncePattern{
+				Type:                appctlpb.NonceType_NONCE_TYPE_FIXED.Enum(),
+				ApplyToAllUDPPacket: proto.Bool(true),
+				CustomHexStrings:    []string{hexPrefix[:2*n]},
+			}}
+		}
+		before := replay.NewSession.Load() + replay.NewSessionDecrypted.Load()
+		for k := 0; k < 3; k++ {
+			user := []string{"alice", "bob", "alice"}[k]
+			what := map[string]interface{}{"transport": e.transport, "fixed_nonce_prefix_bytes": n, "client": k, "user": user}
+			mux, err := e.rg.NewClient(user, users[user], pat, freshIP)
+			if err != nil {
+				r.Fail("replay-fixed-nonce-client-setup", err.Error(), what)
+				continue
+			}
+			ctx, cancel := context.WithTimeout(context.Background(), 20*time.Second)
+			conn, err := mux.DialContext(ctx)
+			cancel()
+			if err != nil {
+				r.Fail("replay-false-positive-fixed-nonce", fmt.Sprintf("%s: fresh genuine client %d with a fixed nonce prefix of %d bytes cannot open a session: %v", e.transport, k, n, err), what)
+				mux.Close()
+				continue
+			}
+			g := &genuine{mux: mux, conn: conn}
+			if err := g.echo(rng.Bytes(rng.Range(1, 2000))); err != nil {
+				r.Fail("replay-false-positive-fixed-nonce", fmt.Sprintf("%s: fresh genuine client %d with a fixed nonce prefix of %d bytes is not served: %v", e.transport, k, n, err), what)
+			}
+			conn.Close()
+			mux.Close()
+			r.Count("fixed-nonce-client")
+			r.Distinct(fmt.Sprintf("fixed-nonce/%s/%d", e.transport, n))
+		}
+		if after := replay.NewSession.Load() + replay.NewSessionDecrypted.Load(); after != before {
+			r.Fail("replay-false-positive-fixed-nonce", fmt.Sprintf("%s: %d fresh segment(s) of genuine clients with a fixed nonce prefix of %d bytes were counted as new-session replays; nothing was replayed", e.transport, after-before, n),
+				map[string]interface{}{"transport": e.transport, "fixed_nonce_prefix_bytes": n})
+		}
+	}
+}
+
 func runReplay(r *vh.Run, transport string) {
 	label := "plain"
 	e, err := newEnv(r, transport, label, nil, nil)
@@ -955,6 +1061,7 @@ func runReplay(r *vh.Run, transport string) {
 		r.Fail("replay-genuine-client-cannot-connect", err.Error(), map[string]string{"transport": transport})
 		return
 	}
+	e.fixedNonceClients(rng.Fork())
 	nrec := 2
 	if transport == "udp" {
 		nrec = 1 // a live UDP session costs wall time per virtual second (its output loop ticks)
@@ -1023,6 +1130,7 @@ func runReplay(r *vh.Run, transport string) {
 		if !r.Thorough() {
 			offsets = offsets[:6]
 		}
+		reloads := 0
 		closedAt := 1 // the original session is closed before the replay at offsets[closedAt]
 		if rec%2 == 1 {
 			closedAt = 0
@@ -1034,6 +1142,15 @@ func runReplay(r *vh.Run, transport string) {
 			}
 			if d := t0.Add(off).Sub(time.Now()); d > 0 {
 				time.Sleep(d)
+			}
+			// server-side management events between recording and replay: even recordings see a reload before the
+			// replays of EVERY offset (variants cycling, so reloads also accumulate), odd ones only at two offsets
+			if rec%2 == 0 {
+				e.reload(1+(oi+rec/2)%5, user)
+				reloads++
+			} else if oi == 2 || oi == 4 {
+				e.reload(map[int]int{2: 1, 4: 4}[oi], user)
+				reloads++
 			}
 			// a fresh genuine client connects at the same moment
 			fresh, ferr := e.startGenuine([]string{"alice", "bob"}[oi%2], freshIP, rng.Fork(), rng.Bytes(64))
@@ -1055,11 +1172,11 @@ func runReplay(r *vh.Run, transport string) {
 					}
 					ps = append(ps, probe{tag: "R", kind: kind, field: fmt.Sprintf("+%ds", int(off/time.Second)), data: d, srcIP: srcIP,
 						opens: opens, tsOK: tsOK, dup: dup, sid: c.sid,
-						info: fmt.Sprintf("recording %d (%s, %d bytes) datagram %d at +%v, original closed=%v, cache tag %q", rec, user, size, di, off, closer == nil, tag)})
+						info: fmt.Sprintf("recording %d (%s, %d bytes) datagram %d at +%v, original closed=%v, %d management reload(s) since the recording, cache tag %q", rec, user, size, di, off, closer == nil, reloads, tag)})
 					// inside the window the cache must still hold the signature (C06 no-miss)
 					if off < 360*time.Second && !dup {
-						r.Fail("replay-cache-forgot-signature", fmt.Sprintf("%s: +%v after acceptance the replay cache no longer holds the signature", transport, off),
-							map[string]interface{}{"transport": transport, "offset_s": int(off / time.Second), "first16": vh.Hex(d[:16])})
+						r.Fail("replay-cache-forgot-signature", fmt.Sprintf("%s: +%v after acceptance (%d management reload(s) in between) the replay cache no longer holds the signature", transport, off, reloads),
+							map[string]interface{}{"transport": transport, "offset_s": int(off / time.Second), "first16": vh.Hex(d[:16]), "reloads": reloads})
 					}
 				}
 			}
@@ -1134,6 +1251,9 @@ func main() {
 		for _, tr := range transports() {
 			runProbe(r, tr, "plain", nil, nil, true)
 		}
+		for _, tr := range transports() {
+			runManagement(r, tr) // reload histories and user-list configurations (manage.go)
+		}
 		if r.Thorough() {
 			pats := []*appctlpb.TrafficPattern{
 				{Seed: ip(3), UnlockAll: proto.Bool(true)},
@@ -1146,12 +1266,12 @@ func main() {
 				}
 			}
 		}
-		r.Rep.Rule = "Probes against a real server Mux on simnet (TCP and UDP, virtual time) with a concurrent genuine echo client: every strict prefix (0..71 bytes) and every single-bit flip (576) of the 72-byte header of captured genuine first segments (flips followed by the rest of the segment; on UDP also from the genuine client's own source address), random strings of boundary and random lengths 0..65536, constant/ASCII strings, well-formed refcodec handshakes under a wrong password, an unknown user, a real user's hint with a foreign key, another user's password; every proper prefix (from the header on) of complete first segments / first datagrams sealed by refcodec with a registered credential (piggybacked payload, suffix padding up to 255; each probe cut from its own freshly sealed segment so that the replay cache does not mask the parser; on TCP followed by a stall and by the prober closing), and on UDP such complete datagrams followed by k extra bytes (all multiples of 256 +-1 and the maximum in quick, every k up to 1500 bytes in thorough); the complete crafted segment itself must be accepted. A class is non-trivial when it differs in (server pattern, transport, kind, mutated field, length class, dup flag, source)."
+		r.Rep.Rule = "Probes against a real server Mux on simnet (TCP and UDP, virtual time) with a concurrent genuine echo client: every strict prefix (0..71 bytes) and every single-bit flip (576) of the 72-byte header of captured genuine first segments (flips followed by the rest of the segment; on UDP also from the genuine client's own source address), random strings of boundary and random lengths 0..65536, constant/ASCII strings, well-formed refcodec handshakes under a wrong password, an unknown user, a real user's hint with a foreign key, another user's password; every proper prefix (from the header on) of complete first segments / first datagrams sealed by refcodec with a registered credential (piggybacked payload, suffix padding up to 255; each probe cut from its own freshly sealed segment so that the replay cache does not mask the parser; on TCP followed by a stall and by the prober closing), and on UDP such complete datagrams followed by k extra bytes (all multiples of 256 +-1 and the maximum in quick, every k up to 1500 bytes in thorough); the complete crafted segment itself must be accepted. Management events: the user list is reloaded (user removed, all removed, all replaced, other password, unchanged, every entry unusable, sequences of these, and a reload between TCP connect and first byte) and handshakes sealed with the removed credential must meet silence; user lists with entries that carry no secret / a damaged hash / duplicate, empty or oversized names are published and a prober that knows every name seals with the empty password, the name as password and digests of public strings; after every publication the registry's compiled table is compared with compile_users of the last list. A class is non-trivial when it differs in (server pattern, transport, kind, mutated field, length class, dup flag, source)."
 	case "replay":
 		for _, tr := range transports() {
 			runReplay(r, tr)
 		}
-		r.Rep.Rule = "Recorded genuine sessions (both users, several sizes) replayed on new TCP connections (whole stream, every prefix at a segment boundary up to 6 and the last, first segment alone, header alone, header+1, first segment minus one byte) or as datagrams from another source address (first datagram, and every recorded datagram - open request, data, acks, close - individually, each from its own fresh address; further short sessions are closed at once and their datagrams replayed for the first time only at +6 s resp. +30 s, after the session was cleaned), at +0 s, +6 s, +30 s, +119 s, +239 s (inside the retention of the replay cache) and +400 s, +800 s (after it; key and timestamp expired), with the original still open or closed, each time concurrently with a fresh genuine client; the case line carries what refcodec (opens, timestamp) and the cache snapshot (dup) say at that instant."
+		r.Rep.Rule = "Before anything is replayed: three fresh genuine clients per fixed nonce prefix length (NONCE_TYPE_FIXED, 0,1,4,7,8,9,12 bytes; 0..12 thorough; applied to every UDP packet) must all be served and the new-session replay counters must not move. Then recorded genuine sessions (both users, several sizes) replayed on new TCP connections (whole stream, every prefix at a segment boundary up to 6 and the last, first segment alone, header alone, header+1, first segment minus one byte) or as datagrams from another source address (first datagram, and every recorded datagram - open request, data, acks, close - individually, each from its own fresh address; further short sessions are closed at once and their datagrams replayed for the first time only at +6 s resp. +30 s, after the session was cleaned), at +0 s, +6 s, +30 s, +119 s, +239 s (inside the retention of the replay cache) and +400 s, +800 s (after it; key and timestamp expired), with the original still open or closed, each time concurrently with a fresh genuine client, and with server-side management reloads (Mux.SetServerUsers = the Reload RPC: users unchanged, another user added, removed again, the victim's quota changed, two reloads in a row) between recording and replay - before the replays of every offset for even recordings, at +30 s and +239 s only for odd ones; the case line carries what refcodec (opens, timestamp) and the cache snapshot (dup) say at that instant."
 	default:
 		panic("unknown -mode " + *mode)
 	}
